@@ -28,3 +28,9 @@ TABLE["C01"] = dict(engine="simworld", technique="property-based testing: Hypoth
 TABLE["C02"] = dict(engine="simworld", technique="property-based testing: generated tamper programs (flip/truncate/extend/relabel phase+side/reflect/cross-phase replay/inject/fake PAKE/duplicate/replay/third participant) at tape-chosen positions + an enumerated single-operation sweep; behavioural oracle: delivered is a prefix of the peer's sends, versions exact and once",
     text="Hypothesis search over 1-4 operation programs plus a deterministic sweep of every operation x every even step of a fixed 3+3 exchange and replay/dup/cross-phase/reflect after a 40-message history (exhaustive for that sub-space).",
     note=SIM_NOTE + " Structural manipulations only; no cryptanalysis.")
+
+COMP_NOTE = ("Trusted base: Hypothesis, the harness's independent reference (re-derived from the property statement), "
+             "and for drivers on the simulated reactor the TCP/clock model of DESIGN.md 2.1. Exploration only.")
+TABLE["C20"] = dict(engine="component", technique="property-based testing: Hypothesis-generated JSON hint lists (field-wise mutations of valid hints, every JSON type in every position, random recursive dicts); oracle = no exception + dialled (host,port) set equals an independent reference filter + encode/parse round trip",
+    text="Three drivers: _hints.parse_hint/parse_tcp_v1_hint directly, Transit{Sender,Receiver}.add_connection_hints+connect() on the simulated reactor (what is dialled is observed at connectTCP), and (where registered) a real dilating peer sending the list. The crashes this found on the pinned tree were repaired in repo commit 42cc806 (fix:) and are kept as regression replays.",
+    note=COMP_NOTE)
